@@ -62,7 +62,7 @@ package kubeeventsmanager
 // same checksum; Deleted removes the entry and fires iff listed; other cache entries are untouched;
 // a stopped informer or a failing filter changes nothing.
 //@ func (*resourceInformer).handleWatchEvent
-//@   prop C08, C01
+//@   prop C08, C01, C02
 //@   opt old=cs
 //@   requires ei.Monitor != nil && ei.cachedObjects != nil && ei.cachedObjectsInfo != nil && ei.cachedObjectsIncrement != nil
 //@   requires [assumed:informer-delivers-unstructured-objects] IsObj(object) || (dyntype(object, cache.DeletedFinalStateUnknown) && IsObj(object.(cache.DeletedFinalStateUnknown).Obj))
@@ -76,10 +76,10 @@ package kubeeventsmanager
 //@   let nFired := (nPut - old(nPut)) + (len(ei.eventBuf) - old(len(ei.eventBuf)))
 //@   ensures [at-most-one @C08]     nFired == 0 || nFired == 1
 //@   ensures [stopped @C08]         old(ei.stopped) ==> nFired == 0 && has(ei.cachedObjects, rid) == wasCached
-//@   ensures [others-kept @C08]     forall(k, string, k != rid ==> has(ei.cachedObjects, k) == old(has(ei.cachedObjects, k)) && ei.cachedObjects[k] == old(ei.cachedObjects[k]))
+//@   ensures [others-kept @C08,C02]     forall(k, string, k != rid ==> has(ei.cachedObjects, k) == old(has(ei.cachedObjects, k)) && ei.cachedObjects[k] == old(ei.cachedObjects[k]))
 //@   ensures [not-listed @C08]      !listed(ei.Monitor.EventTypes, eventType) ==> nFired == 0
-//@   ensures [cache-updated @C08]   (eventType == kemtypes.WatchEventAdded || eventType == kemtypes.WatchEventModified) && !old(ei.stopped) && lastFilterErr == nil ==> has(ei.cachedObjects, rid) && ei.cachedObjects[rid] == lastFilterRes
-//@   ensures [cache-removed @C08]   eventType == kemtypes.WatchEventDeleted && !old(ei.stopped) && lastFilterErr == nil ==> !has(ei.cachedObjects, rid)
+//@   ensures [cache-updated @C08,C02]   (eventType == kemtypes.WatchEventAdded || eventType == kemtypes.WatchEventModified) && !old(ei.stopped) && lastFilterErr == nil ==> has(ei.cachedObjects, rid) && ei.cachedObjects[rid] == lastFilterRes
+//@   ensures [cache-removed @C08,C02]   eventType == kemtypes.WatchEventDeleted && !old(ei.stopped) && lastFilterErr == nil ==> !has(ei.cachedObjects, rid)
 //@   ensures [unchanged-skipped @C08] (eventType == kemtypes.WatchEventAdded || eventType == kemtypes.WatchEventModified) && wasCached && has(ei.cachedObjects, rid)
 //@        && ei.cachedObjects[rid].Metadata.Checksum == oldSum && ei.cachedObjects[rid] != old(ei.cachedObjects[rid]) ==> nFired == 0
 //@   ensures [changed-fires @C08]   (eventType == kemtypes.WatchEventAdded || eventType == kemtypes.WatchEventModified) && listed(ei.Monitor.EventTypes, eventType) && has(ei.cachedObjects, rid)
@@ -171,3 +171,25 @@ package kubeeventsmanager
 //@   loop 1
 //@     invariant 0 <= nvisited() && fresh(res) && len(res) == nvisited()
 //@     invariant forall(j, 0, nvisited(), has(ei.cachedObjects, keyseq()[j]) && res[j] == *ei.cachedObjects[keyseq()[j]])
+
+// ---- C02: a monitor's snapshot is sorted by (namespace, name) -----------------------------------
+//@ trusted func (*varyingInformers).RangeValue
+//@   modifies nothing
+
+// C02: the objects returned for a binding are ordered by (namespace, name) - by resource id when
+// full objects are not kept. (That they are exactly the cached objects of all informers of the
+// monitor, each once, is the contract of getCachedObjects per informer; the concatenation over
+// the informers is checked by the bounded replay.)
+//@ func (*monitor).Snapshot
+//@   prop C02
+//@   opt theory=strings
+//@   requires forall(i, 0, len(m.ResourceInformers), m.ResourceInformers[i] != nil && m.ResourceInformers[i].cachedObjects != nil)
+//@   modifies all(resourceInformer.eventBuf), allelems(kemtypes.ObjectAndFilterResult)
+//@   ensures [sorted] forall(x, 0, len(result), forall(y, 0, len(result), x < y ==> !kemtypes.NsNameLess(result[y], result[x])))
+// Assumed effect of sort.Sort with ByNamespaceAndName (Less is proved to be a strict order on
+// the keys): afterwards no element is Less than an earlier one.
+//@   callsite sort.Sort
+//@     modifies elems(objects)
+//@     ensures forall(x, 0, len(objects), forall(y, 0, len(objects), x < y ==> !kemtypes.NsNameLess(objects[y], objects[x])))
+//@   loop 1
+//@     invariant 0 <= iter() && iter() <= len(m.ResourceInformers)
